@@ -21,6 +21,15 @@ CREATE OR REPLACE MACRO vtl_period_limit(indicator VARCHAR) AS (
     END
 );
 
+-- Number of periods of a given year: weeks and days follow the calendar (52/53 ISO weeks, 365/366 days)
+CREATE OR REPLACE MACRO vtl_periods_in_year(indicator VARCHAR, y INTEGER) AS (
+    CASE indicator
+        WHEN 'W' THEN WEEKOFYEAR(MAKE_DATE(y, 12, 28))
+        WHEN 'D' THEN DAYOFYEAR(MAKE_DATE(y, 12, 31))
+        ELSE vtl_period_limit(indicator)
+    END
+);
+
 -- TimePeriod → end DATE
 CREATE OR REPLACE MACRO vtl_tp_end_date(p vtl_time_period) AS (
     CASE p.period_indicator
